@@ -993,6 +993,16 @@ def build_scenarios(tier, rng):
     for mode in range(5):
         for fmt in ("sarif", "json"):
             add("validate", "files", [I[0], V[0], I[1], V[1], I[2]], fmt=fmt, spell=mode)
+    # characters that are special to the output routines (printf verbs, JSON escapes) in the rejected text, whose source
+    # line the error message quotes, and in inline SQL (which the reports name as the input)
+    PCT = ["select id from t where name like '50%\n", "select 100 %d %s %v from\n", "select a from t where b like 'x%'\n", "select \"q%x\" from where\n",
+           "select 'back\\slash' from where\n", "select 'tab\there' from where\n"]
+    for fmt in ("json", "sarif", None):
+        add("validate", "files", [PCT[0], PCT[2], PCT[1]], fmt=fmt)
+        add("validate", "files", [PCT[3], PCT[4], PCT[5]], fmt=fmt)
+        for t in PCT:
+            add("validate", "inline", [t.strip()], fmt=fmt)
+            add("validate", "stdin", [t], fmt=fmt)
     add("validate", "files", sets[4], fmt="xml")
     add("validate", "files", sets[4], fmt="json", outfile="rep.json")
     add("validate", "files", sets[4], fmt="sarif", outfile="rep.sarif")
